@@ -522,7 +522,7 @@ fn case() -> impl Strategy<Value = Case> {
 }
 
 pub fn run(ctx: &mut Ctx) {
-    ctx.rule = "ceremonies at the WebAuthn, CTAP2 and U2F levels over all hmac-secret configurations, PRF requested or not at registration and assertion, verified/unverified users: after each ceremony the secrets (private scalar, both PRF secrets, and each 16-byte half) are read back from the store and searched in every rendering of every returned value (JSON, CBOR, raw byte fields, U2F encodings, {:?} and {:#?} of results, errors, get_info and stored passkeys) as raw bytes and inside decoded decimal lists, hex runs and base64/base64url runs at every alignment. Non-trivial = a ceremony that produced at least one secret and one scanned artefact; distinct by case.".into();
+    ctx.rule = "ceremonies at the WebAuthn, CTAP2 and U2F levels over all hmac-secret configurations, PRF requested or not at registration and assertion, verified/unverified users: after each ceremony the secrets (private scalar, both PRF secrets, and each 16-byte half) are read back from the store and searched in every rendering of every returned value (JSON, CBOR, raw byte fields, U2F encodings, {:?} and {:#?} of results, errors, get_info and stored passkeys) as raw bytes and inside decoded decimal lists, hex runs and base64/base64url runs at every alignment. Since rounds 7/8: store capability full / forced / non-discoverable only, non-resident CTAP2 registrations, hmac-secret-mc inputs, an imported credential with PRF secrets of 20/33/48/65 bytes evaluated under catch_unwind (panic message scanned). Non-trivial = a ceremony that produced at least one secret and one scanned artefact; distinct by case.".into();
     ctx.assumptions = vec!["the scanner is self-tested at start-up on a planted secret in every representation it claims to cover".into(), "PRF outputs (HMAC results) are not secrets; the per-credential PRF secrets and the private scalar are".into()];
     if let Err(e) = self_test() {
         eprintln!("{e}");
